@@ -112,13 +112,22 @@ def workload(rng, tier):
         s = (rng.choice(pads) if r < 0.6 else "") + base + (rng.choice(pads) if r > 0.3 else "")
         if ref_color(s) is None:
             cases.append((s, "padded"))
+    # a colour wrapped in (or touching) quote characters is another string, and no colour
+    for _ in range(60 if tier == "quick" else 600):
+        base = rng.choice(("red", "#fff", "#8abc", "#102030", "#80102030", "transparent", rng.choice(kws)))
+        l = rng.choice(("'", '"', "''", '""', "`", ""))
+        r_ = rng.choice(("'", '"', "''", '""', "`", "")) if rng.random() < 0.5 else l
+        s = l + base + r_
+        if ref_color(s) is None:
+            cases.append((s, "quoted"))
     cases += [(s, "noncolour") for s in ("", "#", "##fff", "0xfff", "fff", "ffffff", "rgb(1,2,3)", "#ffffffffff",
                                           "rebeccapurple", "none", "currentColor", "grey50", "light gray")]
     return cases
 
 
-def qml_string(s, spell=None):
-    """spell = (position, form): that character is written as an escape sequence (the string denoted stays the same)."""
+def qml_string(s, spell=None, quote='"'):
+    """spell = (position, form): that character is written as an escape sequence (the string denoted stays the same).
+    quote: the delimiter; the other quote character is written bare."""
     out = []
     for i, c in enumerate(s):
         if spell and i == spell[0] and ord(c) < 0x80:
@@ -126,8 +135,8 @@ def qml_string(s, spell=None):
             continue
         if c == "\\":
             out.append("\\\\")
-        elif c == '"':
-            out.append('\\"')
+        elif c == quote:
+            out.append("\\" + quote)
         elif c == "\n":
             out.append("\\n")
         elif c == "\t":
@@ -136,7 +145,7 @@ def qml_string(s, spell=None):
             out.append("\\x%02x" % ord(c))
         else:
             out.append(c)
-    return '"' + "".join(out) + '"'
+    return quote + "".join(out) + quote
 
 
 def run(tier, seed, replay=None):
@@ -191,7 +200,7 @@ def run(tier, seed, replay=None):
     n_e2e = 150 if tier == "quick" else 1500
     picks = [rng.choice(cases) for _ in range(n_e2e)]
     # the .ui path has its own code between the string and the parser: every padded / near-miss class goes through it
-    picks += [c for c in cases if c[1] == "padded"]
+    picks += [c for c in cases if c[1] in ("padded", "quoted")]
     picks += rng.sample([c for c in cases if c[1] == "noncolour"], 150 if tier == "quick" else 1500)
     picks += rng.sample([c for c in cases if c[1] == "keyword"], 100 if tier == "quick" else 740)
     picks += [("#abc", "hex3"), ("#8abc", "hex4"), ("#0a0b0c", "hex68"), ("#800a0b0c", "hex68"),
@@ -202,10 +211,14 @@ def run(tier, seed, replay=None):
     for i, (s, cls) in enumerate(picks):
         # a quarter of the colours have one character written as an escape sequence: the string is the same colour
         spell = (rng.randrange(len(s)), rng.choice(("x", "u4", "ub2", "ub4", "ub3"))) if (s and i % 4 == 0 and ref_color(s) is not None) else None
-        lit = qml_string(s, spell)
-        src = ("import qmluic.QtWidgets\nQColorDialog {\n currentColor: %s\n"
+        # the delimiter is the quote character the string does not hold (so that it is written without escapes), else random
+        quote = "'" if ('"' in s and "'" not in s) else '"' if "'" in s else rng.choice("\"\"\"'")
+        lit = qml_string(s, spell, quote)
+        # every third document also carries a warning (versioned import): an error next to a warning is still an error
+        warn = i % 3 == 1
+        src = ("import qmluic.QtWidgets%s\nQColorDialog {\n currentColor: %s\n"
                " QGraphicsView { backgroundBrush: %s }\n"
-               " QLabel { palette.window: %s; palette.disabled.text: %s }\n}\n" % (lit, lit, lit, lit))
+               " QLabel { palette.window: %s; palette.disabled.text: %s }\n}\n" % (" 1.0" if warn else "", lit, lit, lit, lit))
         jobs.append({"id": "e%d" % i, "source": src, "modes": ["generate"], "want": ["ui"]})
     out = common.translate(jobs, tag="c19")
     e2e = 0
